@@ -53,6 +53,9 @@ def specs(r):
                     qs.append((f"spec least {c01.tm_tokens(4, t)} {o['clock']} {due}", {"what": "once_weekday", "key": k}))
         elif o["op"] == "exec":
             for (k, due_seen, _p) in ob["invoked"]:
+                if not o.get("force"):
+                    # "due exactly at": an ordinary poll never runs a job before the due time it reports
+                    qs.append((f"spec le {due_seen} {o['clock']}", {"what": "not_invoked_before_due", "key": k, "op": i}))
                 if k in cyc:
                     o2, ref = cyc[k]
                     n = ob["jobs"][k][2]  # attempts after this call = index of this execution
